@@ -2171,6 +2171,10 @@ class ResetIndex(Elemwise):
                 # replace the projection of the former index with the actual index
                 subs = Projection(self, name)
                 predicate = parent.predicate.substitute(subs, Index(self.frame))
+                if self.frame.ndim == 1 and not self.operand("drop"):
+                    # the other column of the predicate is the former Series itself
+                    subs = Projection(self, self.frame._meta.name)
+                    predicate = predicate.substitute(subs, self.frame)
                 # the other columns of the predicate still refer to self
                 predicate = predicate.substitute(self, self.frame)
             elif self.frame.ndim == 1 and not self.operand("drop"):
